@@ -87,6 +87,13 @@ def _peek_one(model, v):
       return float(r.numerator_as_long()) / float(r.denominator_as_long())
     except Exception:
       return repr(r)
+  if isinstance(v, bl.LazyIntSymbolicStr) and isinstance(v._codepoints, bl.SymbolicBoundedIntTuple):
+    cps = v._codepoints
+    n = model.eval(cps._len.var, model_completion=True).as_long()
+    vs = (list(cps._created_vars) + list(cps._new_var_queue))[:n]
+    chars = [chr(model.eval(x.var, model_completion=True).as_long()) for x in vs]
+    chars += ['a'] * (n - len(chars))          # characters the path never looked at: any value will do
+    return ''.join(chars)
   if isinstance(v, CrossHairValue):
     return '<sym:%s>' % type(v).__name__
   if isinstance(v, (list, tuple)):
